@@ -40,12 +40,19 @@ T0 = datetime.datetime(2022, 2, 2, 2, 2, 2, tzinfo=UTC)
 OMIT = "__omit__"
 
 
+class _EmptyIsFalsy(recorders.StreamRecorder):
+    def __len__(self):
+        return len(self.live)
+
+
 def build(node, leaves, path, log):
     """Instantiate a tree; leaves[] gets (kind, path-of-transfers, object)."""
     import testtools
     kind = node[0]
     if kind == "sink":
-        s = recorders.StreamRecorder(log, "L%d" % len(leaves))
+        # ("empty": a collecting sink that, like a list, is falsy while it has collected nothing)
+        cls = _EmptyIsFalsy if len(node) > 1 and node[1] == "empty" else recorders.StreamRecorder
+        s = cls(log, "L%d" % len(leaves))
         leaves.append(("sink", list(path), s))
         return s
     if kind == "queue":
@@ -292,6 +299,9 @@ def small_trees():
     for leaf in LEAVES:
         d2.extend(unary_wrappers(leaf))
     d2.append(["copy", [["sink"], ["sink"]]])
+    d2.append(["copy", [["sink", "empty"], ["sink"]]])
+    d2.append(["tagger", ["a"], [], [["sink", "empty"]]])
+    d2.append(["stamp", ["sink", "empty"]])
     d2.append(["copy", [["sink"], ["queue", "1"], ["failfast"]]])
     d2.append(["tagger", ["a"], ["x"], [["sink"], ["sink"]]])
     d3 = []
@@ -320,7 +330,7 @@ STD_HISTORY = [
 
 def random_tree(rng, depth):
     if depth == 0 or rng.random() < 0.25:
-        return list(rng.choice(LEAVES + [["sink"], ["sink"], ["queue", rng.choice(["0", "1", "0/2"])]]))
+        return list(rng.choice(LEAVES + [["sink"], ["sink"], ["sink", "empty"], ["queue", rng.choice(["0", "1", "0/2"])]]))
     r = rng.random()
     kids = lambda: [random_tree(rng, depth - 1) for _ in range(rng.randint(1, 3))]  # noqa: E731
     if r < 0.35:
